@@ -18,9 +18,9 @@ def run(ctx):
             # quick: every history of <= 6 calls; thorough: every history (no bound) over 2 accounts x 1 key x 1 snapshot slot
             ctx.model_check("state", "MC_WorldState", ctx.pick("MC_WorldState_quick.cfg", "MC_WorldState.cfg"),
                             timeout=ctx.pick(900, 3000))
-            ctx.exhaustive = True
+            ctx.exhaustive = not ctx.quick()  # thorough also replays the complete BFS set of depth 2
         allb = ctx.behaviours("state", "Gen_WorldState", "Gen_WorldState.cfg", constants={"MaxOps": wl, "Depth": wl},
-                              simulate="num=%d" % ctx.pick(200, 4000), depth=wl + 1, seed=ctx.seed, timeout=ctx.pick(900, 3000))
+                              simulate="num=%d" % ctx.pick(200, 1500), depth=wl + 1, seed=ctx.seed, timeout=ctx.pick(900, 3000))
         if not ctx.quick():
             allb += ctx.behaviours("state", "Gen_WorldState", "Gen_WorldState.cfg", constants={"MaxOps": 2, "Depth": 2,
                                    "Accts": '{"a", "b"}', "MaxSnaps": 1}, timeout=1800)
